@@ -315,6 +315,17 @@ def _cases(rng: random.Random, tier: str):
         g, X, Y, Z, kind = r
         out.append({"g": g, "X": X, "Y": Y, "Z": Z, "via": "idc" if k % 5 else "identify_outcomes",
                     "label": "structured:" + kind, "seed": rng.randrange(1 << 30)})
+    # SMALL-SCOPE EXHAUSTIVE stream (session 4; appended): every labelled ADMG on 2-3 nodes x every valid conditional query
+    # (X, Y, Z pairwise disjoint, Y and Z non-empty: 2 / 18 per graph = 3612 cases) in the thorough tier, a fixed 1-in-5
+    # stride of it in the quick tier
+    k = 0
+    for n3 in (2, 3):
+        for g in G.all_labelled_admgs(n3):
+            for r in G.all_role_assignments(n3, ("X", "Y", "Z"), ("Y", "Z")):
+                k += 1
+                if tier == "thorough" or k % 5 == 0:
+                    out.append({"g": g, "X": r["X"], "Y": r["Y"], "Z": r["Z"], "via": "idc" if k % 3 else "identify_outcomes",
+                                "label": "smallscope:%d" % n3, "seed": rng.randrange(1 << 30)})
     return out
 
 
